@@ -361,6 +361,10 @@ Env1(root, base, pats) == [docs |-> <<[u |-> Defrag(base)[1], doc |-> root]>>, b
 EnvN(root, base, more, pats) ==
   [docs |-> <<[u |-> Defrag(base)[1], doc |-> root]>> \o more, base |-> base, pats |-> pats]
 
+\* a validator built for root schema S without an explicit resolver knows S under S's own id (its base URI)
+RootBase(d, S) == IF Has(S, IdKw(d)) /\ IsStr(Get(S, IdKw(d))) THEN Get(S, IdKw(d)).s ELSE <<>>
+EnvFor(d, S, pats) == Env1(S, RootBase(d, S), pats)
+
 Run(d, env, S, I) == E(d, env, S, I, FMAX)
 
 \* outcome class of a validation (C03): what an entry point may do
